@@ -11,6 +11,13 @@ use std::time::Instant;
 
 /// Output root (evidence/, replays/, known_findings.json). Overridable for scratch copies.
 pub fn verif_dir() -> String { std::env::var("VX_VERIF_DIR").unwrap_or_else(|_| "/verif".to_string()) }
+/// Label of a second build configuration of the same check (e.g. "relsem": overflow checks and debug assertions off).
+/// A labelled run writes evidence_aux/<ID>.<label>.json and replays/<ID>-<label>/ and leaves the main files alone.
+pub fn profile_label() -> Option<String> { std::env::var("VX_PROFILE_LABEL").ok().filter(|s| !s.is_empty()) }
+/// What the binary was compiled with (the library under check is compiled with the same profile).
+pub fn build_semantics() -> &'static str {
+    if cfg!(debug_assertions) { "overflow-checks = on, debug-assertions = on (what `cargo test` gives vek)" } else { "overflow-checks = off, debug-assertions = off (release semantics: wrapping integer arithmetic, debug_assert! compiled out)" }
+}
 
 #[derive(Clone, Copy, PartialEq, Eq, Debug)]
 pub enum Tier { Quick, Thorough }
@@ -95,7 +102,7 @@ pub struct Report {
     tot_evals: AtomicU64,
     tot_nontrivial: AtomicU64,
     tot_unmodelled: AtomicU64,
-    violations: Mutex<Vec<Violation>>,
+    violation_buckets: Mutex<BTreeMap<String, (Vec<Violation>, u64)>>,
     violation_counts: Mutex<BTreeMap<String, u64>>,
     machinery_errors: Mutex<Vec<String>>,
     samples: Mutex<Vec<Value>>,
@@ -125,7 +132,7 @@ impl Report {
         Report {
             property: property.to_string(), level: level.to_string(), tier, seed, replay, start: Instant::now(),
             sections: Mutex::new(Vec::new()), tot_evals: AtomicU64::new(0), tot_nontrivial: AtomicU64::new(0), tot_unmodelled: AtomicU64::new(0),
-            violations: Mutex::new(Vec::new()), violation_counts: Mutex::new(BTreeMap::new()), machinery_errors: Mutex::new(Vec::new()),
+            violation_buckets: Mutex::new(BTreeMap::new()), violation_counts: Mutex::new(BTreeMap::new()), machinery_errors: Mutex::new(Vec::new()),
             samples: Mutex::new(Vec::new()), extra: Mutex::new(BTreeMap::new()), rules: Mutex::new(Vec::new()), all_exhaustive: Mutex::new(true),
         }
     }
@@ -133,18 +140,19 @@ impl Report {
     pub fn machinery_error(&self, m: String) { self.machinery_errors.lock().unwrap().push(m); }
     pub fn extra(&self, k: &str, v: Value) { self.extra.lock().unwrap().insert(k.to_string(), v); }
     fn push_violation(&self, v: Violation) {
+        // One bucket per kind (site|class): at most 40 kept, the 40 smallest inputs of the kind (the counterexample with the
+        // fewest deviations survives).  O(1) per report once a bucket is full and the newcomer is not smaller than its largest
+        // member, so a change that makes millions of cases fail costs seconds, not a quadratic scan under the lock.
         let key = v.key();
         let mut c = self.violation_counts.lock().unwrap();
-        let n = c.entry(key).or_insert(0);
-        *n += 1;
-        let mut vs = self.violations.lock().unwrap();
-        if *n <= 40 { vs.push(v); }
-        else {
-            // keep the 40 smallest inputs of this kind (the counterexample with the fewest deviations survives)
-            let key = v.key();
-            if let Some((idx, _)) = vs.iter().enumerate().filter(|(_, o)| o.key() == key).max_by_key(|(_, o)| o.weight) {
-                if vs[idx].weight > v.weight { vs[idx] = v; }
-            }
+        *c.entry(key.clone()).or_insert(0) += 1;
+        drop(c);
+        let mut bs = self.violation_buckets.lock().unwrap();
+        let b = bs.entry(key).or_insert_with(|| (Vec::new(), 0));
+        if b.0.len() < 40 { if v.weight > b.1 { b.1 = v.weight; } b.0.push(v); }
+        else if v.weight < b.1 {
+            if let Some((idx, _)) = b.0.iter().enumerate().max_by_key(|(_, o)| o.weight) { b.0[idx] = v; }
+            b.1 = b.0.iter().map(|o| o.weight).max().unwrap_or(0);
         }
     }
 
@@ -189,13 +197,16 @@ impl Report {
     pub fn finish_with(self, level_keys: Value) -> i32 {
         let wall = self.start.elapsed().as_secs_f64();
         let known = load_known(&self.property);
-        let mut viols = self.violations.lock().unwrap().clone();
+        let mut viols: Vec<Violation> = self.violation_buckets.lock().unwrap().values().flat_map(|b| b.0.iter().cloned()).collect();
         viols.sort_by_key(|v| v.weight);
         let counts = self.violation_counts.lock().unwrap().clone();
         let mut exit = 0;
         let mut new_viol = 0u64;
         let mut known_hit: BTreeMap<String, u64> = BTreeMap::new();
-        let dir = format!("{}/replays/{}", verif_dir(), self.property);
+        let label = profile_label();
+        let suffix_dir = label.as_ref().map(|l| format!("-{}", l)).unwrap_or_default();
+        let suffix_file = label.as_ref().map(|l| format!(".{}", l)).unwrap_or_default();
+        let dir = format!("{}/replays/{}{}", verif_dir(), self.property, suffix_dir);
         let tier_s = if self.tier == Tier::Thorough { "thorough" } else { "quick" };
 
         if let Some(r) = &self.replay {
@@ -248,6 +259,23 @@ impl Report {
             "machinery_errors": merrs,
             "caps_hit": [],
         });
+        coverage["build_semantics"] = json!(build_semantics());
+        if let Some(l) = &label { coverage["profile_label"] = json!(l); }
+        // a labelled run of the same check that the driver executed just before this one (thorough tiers of C12/C17...)
+        if let Ok(p) = std::env::var("VX_MERGE_EVIDENCE") {
+            for one in p.split(':').filter(|s| !s.is_empty()) {
+                match std::fs::read_to_string(one).ok().and_then(|t| serde_json::from_str::<Value>(&t).ok()) {
+                    Some(o) => {
+                        let c = &o["coverage"];
+                        let name = c["profile_label"].as_str().unwrap_or("other").to_string();
+                        coverage[format!("second_configuration_{}", name)] = json!({"build_semantics": c["build_semantics"], "tier": o["tier"], "evaluations": c["evaluations"],
+                            "distinct_nontrivial": c["distinct_nontrivial"], "unmodelled": c["unmodelled"], "violations": o["violations"], "known_findings_seen": c["known_findings_seen"],
+                            "machinery_errors": c["machinery_errors"], "wall_s": o["wall_s"], "evidence_file": one});
+                    }
+                    None => { eprintln!("MACHINERY-ERROR property={} cannot read the evidence of the second configuration at {}", self.property, one); if exit == 0 { exit = 2; } }
+                }
+            }
+        }
         for (k, v) in self.extra.lock().unwrap().iter() { coverage[k] = v.clone(); }
         if let Some(o) = level_keys.as_object() { for (k, v) in o { coverage[k] = v.clone(); } }
         let ev = json!({
@@ -259,11 +287,13 @@ impl Report {
             ],
             "wall_s": wall, "violations": new_viol,
         });
-        let _ = std::fs::create_dir_all(format!("{}/evidence", verif_dir()));
-        let path = format!("{}/evidence/{}.json", verif_dir(), self.property);
+        // the main configuration owns evidence/<ID>.json; a labelled configuration writes next to it, in evidence_aux/
+        let edir = if label.is_some() { "evidence_aux" } else { "evidence" };
+        let _ = std::fs::create_dir_all(format!("{}/{}", verif_dir(), edir));
+        let path = format!("{}/{}/{}{}.json", verif_dir(), edir, self.property, suffix_file);
         if let Err(e) = std::fs::write(&path, serde_json::to_string_pretty(&ev).unwrap()) { eprintln!("cannot write evidence: {}", e); if exit == 0 { exit = 2; } }
-        println!("{} tier={} evaluations={} nontrivial={} unmodelled={} new_violations={} known_findings={} wall={:.1}s exit={}",
-            self.property, tier_s, evals, nontriv, self.tot_unmodelled.load(Relaxed), new_viol, known_hit.len(), wall, exit);
+        println!("{}{} tier={} evaluations={} nontrivial={} unmodelled={} new_violations={} known_findings={} wall={:.1}s exit={}",
+            self.property, label.as_ref().map(|l| format!("[{}]", l)).unwrap_or_default(), tier_s, evals, nontriv, self.tot_unmodelled.load(Relaxed), new_viol, known_hit.len(), wall, exit);
         exit
     }
 }
